@@ -32,12 +32,11 @@ import tornado.websocket  # noqa: F401
 from tornado.ioloop import IOLoop
 
 from sim.env import SimEnv, UNIT
-from sim.tape import jsonable
 from sim.threads import Baton, BatonLoop, line_tracer, ForkRunner, DONE, BLOCKED
 
 import os as _os
-ENABLED = _os.environ.get("VERIF_C38_THREADS", "0") == "1"  # default on once proved
-SHARE = 0.3
+ENABLED = _os.environ.get("VERIF_C38_THREADS", "1") != "0"  # VERIF_C38_THREADS=0 switches the thread mode off
+SHARE = 0.04  # a thread scenario costs 30-50x a single-threaded one
 WALL = 30.0
 ID = "C38"
 
@@ -224,10 +223,10 @@ def _child(request, result):
             loop.sched = None
             loop.block_hook = None
         result.send({
-            "violations": viol, "nontrivial": nontrivial, "stats": jsonable(st),
-            "log_head": jsonable(log.head[:120]),
-            "log_full": jsonable(log.full) if log.full is not None else None,
-            "outcome": jsonable({"status": state["status"], "scheduled": len(cbs),
+            "violations": viol, "nontrivial": nontrivial, "stats": st,
+            "log_head": log.head[:120],
+            "log_full": log.full,
+            "outcome": ({"status": state["status"], "scheduled": len(cbs),
                                  "ran": sum(len(v) for v in runs.values()),
                                  "threads": sched.describe()}),
         }, clean=clean)
@@ -354,7 +353,8 @@ def run(scn, full_log=False):
         gc.collect()
         gc.freeze()
         _frozen.append(1)
-    return _runner.run({"scn": scn, "full_log": bool(full_log)})
+    # full_log is what --replay asks for: a replay always gets a process of its own
+    return _runner.run({"scn": scn, "full_log": bool(full_log)}, fresh=bool(full_log))
 
 
 # names used in the lead's brief
